@@ -320,11 +320,12 @@ func (t Table) matchingHosts(req *http.Request, globCache *GlobCache) (hosts []s
 		//Get Compiled Glob from LRU cache
 		g, err := globCache.Get(normpat)
 		if err != nil {
+			// a host which is not a valid pattern matches nothing
 			log.Print("[Error] Compiling glob - ", err)
-			g = glob.MustCompile(normpat)
+			continue
 		}
 
-		if g.Match(host) {
+		if globMatch(g, host) {
 			hosts = append(hosts, pattern)
 		}
 	}
